@@ -34,6 +34,8 @@ SELECTORS = ('subset', 'subsample', 'subset_pattern', 'subsample_pattern')
 
 
 def run(ctx, obs):
+    for _q in ('sets_k_fold', 'sets_k_fold_rdm', 'sets_k_fold_pattern'):
+        kfold_partition(ctx, obs, 'inference.crossvalsets.' + _q)
     from ..rules import sweeps
     sweeps.run(ctx, obs, 'C05')
     prog, dep = ctx.prog, ctx.dep
@@ -383,3 +385,106 @@ def concat_both_sides(ctx, obs, q, rule='GROUP'):
               'bootstrap multiplicities are expanded for both the training and the test pattern lists',
               f'_concat_sampling is applied to the {sorted(sides)} side only: train and test sides would disagree on multiplicity',
               '', where(prog, f, f.node))
+
+
+# ------------------------------------------------------------------------------------------- PART (k-fold index arithmetic)
+def kfold_partition(ctx, obs, q, rule='PART'):
+    """k-fold generators: n = k*g + a items (g = floor(n/k), a = n % k).  Fold i tests the block [i*g, (i+1)*g) and, for i < a, one
+    extra item E(i).  The folds partition 0..n-1 iff the blocks are those consecutive ranges and the extras are distinct elements
+    of the tail [k*g, n).  E(i) is read as a linear form over n, a, i and decided on the cone {a >= 1, 0 <= i <= a-1} by its
+    vertex and its two rays (a linear function is non-negative on a cone iff it is so there)."""
+    prog = ctx.prog
+    f = prog.func(q)
+    # symbols from the code: g = floor(len(X) / k) ; a = len(X) % k
+    gname = aname = nsrc = kname = None
+    for s in ast.walk(f.node):
+        if isinstance(s, ast.Assign) and isinstance(s.targets[0], ast.Name):
+            v = s.value
+            if isinstance(v, ast.BinOp) and isinstance(v.op, ast.Mod) and isinstance(v.left, ast.Call) and _leaf(v.left.func) == 'len':
+                aname, nsrc, kname = s.targets[0].id, norm(v.left), norm(v.right)
+            inner = v.args[0] if isinstance(v, ast.Call) and _leaf(v.func) in ('floor', 'int') and v.args else v
+            if isinstance(inner, ast.BinOp) and isinstance(inner.op, (ast.Div, ast.FloorDiv)) and isinstance(inner.left, ast.Call) \
+                    and _leaf(inner.left.func) == 'len':
+                gname = s.targets[0].id
+    loops = [lp for lp in ast.walk(f.node) if isinstance(lp, ast.For) and isinstance(lp.iter, ast.Call) and _leaf(lp.iter.func) == 'range'
+             and isinstance(lp.target, ast.Name)]
+    if not (gname and aname and loops):
+        obs.unk(rule, q, 'k-fold index arithmetic', 'group size / remainder / fold loop not recognised', where(prog, f, f.node))
+        return
+    for lp in loops:
+        i = lp.target.id
+        blocks = [s for s in lp.body if isinstance(s, ast.Assign) and isinstance(s.value, ast.Call) and _leaf(s.value.func) == 'arange'
+                  and len(s.value.args) == 2]
+        if not blocks:
+            continue
+        b = blocks[0]
+        lo, hi = (norm(x).replace(' ', '') for x in b.value.args)
+        ok_block = lo in (f'{i}*{gname}', f'{gname}*{i}') and hi in (f'({i}+1)*{gname}', f'{gname}*({i}+1)', f'{i}*{gname}+{gname}')
+        obs.soft(ok_block, rule, q, 'fold i tests the consecutive block [i*g, (i+1)*g)', f'`{norm(b)[:80]}`', '', where(prog, f, b))
+        for g in lp.body:
+            if isinstance(g, ast.If) and isinstance(g.test, ast.Compare) and len(g.test.ops) == 1 and isinstance(g.test.ops[0], ast.Lt) \
+                    and norm(g.test.left) == i and norm(g.test.comparators[0]) == aname:
+                # the extra element(s) appended in this arm
+                extras = []
+                for c in ast.walk(g):
+                    if isinstance(c, ast.Call) and _leaf(c.func) in ('concatenate', 'append', 'hstack', 'r_') :
+                        for x in ast.walk(c):
+                            if isinstance(x, ast.List) and len(x.elts) == 1:
+                                extras.append(x.elts[0])
+                local = {s.targets[0].id: s.value for s in g.body if isinstance(s, ast.Assign) and isinstance(s.targets[0], ast.Name)}
+                for e in extras:
+                    if isinstance(e, ast.Name) and e.id in local:
+                        e = local[e.id]
+                    lin = _lin_nai(e, nsrc, aname, i, gname, kname)
+                    con = 'the extra item of fold i is a distinct element of the tail [k*g, n)'
+                    if lin is None:
+                        obs.unk(rule, q, con, f'`{norm(e)}` is not linear in n, k*g, the remainder and the fold index', where(prog, f, g))
+                        continue
+                    cn, ca, ci, c0, ckg = lin
+                    # with n = k*g + a:  E = (cn + ckg)*k*g + (cn + ca)*a + ci*i + c0 ; relative to the tail start k*g the
+                    # coefficient of k*g must be exactly 1
+                    if cn + ckg != 1:
+                        obs.bad(rule, q, con, f'`{norm(e)}` is not an offset into the tail (it is {cn + ckg} * k*g + ...)', where(prog, f, g))
+                        continue
+                    A = cn + ca          # E = k*g + A*a + ci*i + c0
+                    # substitute i = a - 1 - j (0 <= j <= a-1):  low(a, j) = E - k*g = (A + ci)*a - ci*j + (c0 - ci)   must be >= 0
+                    #                                            up(a, j)  = n - 1 - E = (1 - A - ci)*a + ci*j + (ci - c0 - 1) >= 0
+                    def nonneg(pa, pj, p0):
+                        return (pa + p0 >= 0) and (pa >= 0) and (pa + pj >= 0)     # vertex (a=1,j=0), rays (1,0) and (1,1)
+                    low = nonneg(A + ci, -ci, c0 - ci)
+                    up = nonneg(1 - A - ci, ci, ci - c0 - 1)
+                    inj = ci != 0
+                    obs.check(low and up and inj, rule, q, con,
+                              f'`{norm(e)}` = k*g {A:+d}*a {ci:+d}*i {c0:+d}: ' + ('; '.join(
+                                  m for m, okk in (('falls below k*g for some fold (overlaps a block, the last items are never tested)', low),
+                                                   ('exceeds n-1 for some fold', up), ('is the same item for every fold', inj)) if not okk)),
+                              '', where(prog, f, g))
+
+
+def _lin_nai(e, nsrc, aname, iname, gname=None, kname=None):
+    """linear form (c_n, c_a, c_i, c_0, c_kg) of e over n = len(X), a = remainder, i = fold index, k*g"""
+    if isinstance(e, ast.Constant) and isinstance(e.value, int):
+        return (0, 0, 0, e.value, 0)
+    if isinstance(e, ast.Call) and _leaf(e.func) == 'len' and norm(e) == nsrc:
+        return (1, 0, 0, 0, 0)
+    if isinstance(e, ast.Call) and _leaf(e.func) == 'int' and e.args:
+        return _lin_nai(e.args[0], nsrc, aname, iname, gname, kname)
+    if isinstance(e, ast.Name):
+        if e.id == aname:
+            return (0, 1, 0, 0, 0)
+        if e.id == iname:
+            return (0, 0, 1, 0, 0)
+        return None
+    if isinstance(e, ast.BinOp) and isinstance(e.op, ast.Mult) and gname and kname \
+            and {norm(e.left), norm(e.right)} == {gname, kname}:
+        return (0, 0, 0, 0, 1)
+    if isinstance(e, ast.UnaryOp) and isinstance(e.op, ast.USub):
+        t = _lin_nai(e.operand, nsrc, aname, iname, gname, kname)
+        return None if t is None else tuple(-x for x in t)
+    if isinstance(e, ast.BinOp) and isinstance(e.op, (ast.Add, ast.Sub)):
+        l, r = _lin_nai(e.left, nsrc, aname, iname, gname, kname), _lin_nai(e.right, nsrc, aname, iname, gname, kname)
+        if l is None or r is None:
+            return None
+        sg = 1 if isinstance(e.op, ast.Add) else -1
+        return tuple(a + sg * b for a, b in zip(l, r))
+    return None
